@@ -78,6 +78,7 @@ def make_hooks(spec, st):
                 if cls.__name__ == 'HLog': mode = 'modify' if hook == 'before_insert' else 'noop'   # the log object has hooks of its own
                 else: mode = st.modes.get((cls.__name__, hook), 'noop')
                 before = hook.startswith('before')
+                n_effects = len(st.effects)
                 try:
                     if mode == 'read':
                         obj.hk
@@ -125,6 +126,9 @@ def make_hooks(spec, st):
                             st.effects.append(('set', target, st.counter)); eng.c('hooks.after_hook_edits')
                 except Exception as ex:
                     st.errors.append((hook, type(ex).__name__, str(ex)[:120]))
+                    # the hook failed (loud; the pony call that triggered the flush fails with it): whatever this hook
+                    # call had recorded so far is not applied to the reference model
+                    del st.effects[n_effects:]
                     raise
                 # hook edits are in-memory changes of the session: they reach the reference model at once; a later
                 # rollback discards them together with everything else the session did
